@@ -40,6 +40,9 @@ pub enum Sig {
     /// Characters outside the zbase32 alphabet.
     NonZbase32,
     Empty,
+    /// The right user signs the right message; the signature string is sent in upper case (zbase32 decoding does not
+    /// care, so it authenticates; whatever the tower signs or stores must carry the string as it was sent).
+    GoodUpper,
 }
 
 #[derive(Serialize, Deserialize, Clone, Debug, PartialEq, Eq, Hash)]
